@@ -5,7 +5,7 @@ The engine abstracts encoding/json on arbitrary bytes by uninterpreted parse res
 For native replay the model's valuation is turned into bytes from a small template family."""
 import json, re
 
-ATTRS = ["empty", "sErr", "mErr", "sID", "sTok", "sPrio", "mHas_id", "mIsStr_id", "mStr_id", "mHas_token", "mIsStr_token", "mStr_token"]
+ATTRS = ["sNull", "empty", "sErr", "mErr", "sID", "sTok", "sPrio", "mHas_id", "mIsStr_id", "mStr_id", "mHas_token", "mIsStr_token", "mStr_token"]
 
 
 def unesc(s):
@@ -42,6 +42,8 @@ def b(a, k, default=False):
 def synth_one(a):
     if b(a, "empty"):
         return ""
+    if b(a, "sNull"):
+        return "null"
     if b(a, "mErr"):
         return "{"  # not JSON: both parses fail
     parts = []
